@@ -1827,6 +1827,14 @@ class Interp:
             fa, va = (a.fmt, a.values) if isinstance(a, Fmt) else (a.replace('%', '%%'), ())
             fb, vb = (b.fmt, b.values) if isinstance(b, Fmt) else (b.replace('%', '%%'), ())
             return Fmt(fa + fb, va + vb)
+        if isinstance(op, ast.Mult) and (isinstance(a, list) and len(a) == 1 and isinstance(b, Arr) or isinstance(b, list) and len(b) == 1 and isinstance(a, Arr)):
+            seq_, k_ = (a, b) if isinstance(a, list) else (b, a)
+            lab_ = _len_label(k_.poly) if k_.ndim == 0 else None
+            if lab_ is not None and isinstance(seq_[0], (Obj, Foreign)):
+                # [obj] * n: a list of n references to ONE object - what is stored through one entry is seen through every entry
+                g_ = GenList(lab_, seq_[0])
+                g_.shared = True
+                return g_
         if isinstance(op, ast.Mult) and (isinstance(a, (tuple, list)) and isinstance(b, int) or isinstance(a, int) and isinstance(b, (tuple, list))) and not isinstance(a, bool) and not isinstance(b, bool):
             seq_, k_ = (a, b) if isinstance(a, (tuple, list)) else (b, a)
             if len(seq_) * max(k_, 0) <= 256:
@@ -2844,6 +2852,54 @@ class Interp:
             if last in ('sum', 'any', 'all', 'max', 'min', 'nanmax', 'nanmin', 'amax', 'amin'):
                 kind = {'amax': 'max', 'amin': 'min'}.get(last, last)
                 return self._reduce(args[0], kw.get('axis', args[1] if len(args) > 1 else None), kind, e)
+            if last == 'fromiter' and args and isinstance(args[0], (list, tuple)):
+                # the first `count` items of the iterable (all of them without count): surplus items are left unread, too few is a ValueError
+                cnt_ = kw.get('count', args[2] if len(args) > 2 else -1)
+                if isinstance(cnt_, Arr) and cnt_.ndim == 0 and cnt_.poly.is_const() and cnt_.poly.const_value().denominator == 1:
+                    cnt_ = int(cnt_.poly.const_value())
+                if isinstance(cnt_, int) and not isinstance(cnt_, bool):
+                    seq_ = list(args[0])
+                    if cnt_ >= 0 and len(seq_) < cnt_:
+                        raise PyRaise('ValueError', 'iterator too short: %d items where count=%d' % (len(seq_), cnt_))
+                    return self._list_to_arr(seq_ if cnt_ < 0 else seq_[:cnt_])
+            if last in ('atleast_2d', 'atleast_3d') and len(args) == 1:
+                want_ = 2 if last == 'atleast_2d' else 3
+                if args[0] is None:
+                    return Arr((None,) * want_, alg.sym('object:None'))          # np.atleast_2d(None) is array([[None]], dtype=object): no longer None
+                x = self._as_arr(args[0])
+                if isinstance(x, Arr):
+                    if x.ndim >= want_:
+                        return x
+                    if last == 'atleast_2d':
+                        return x.with_(dims=(None,) * (2 - x.ndim) + tuple(x.dims))          # new axes in front
+            if last == 'isclose' and len(args) >= 2:
+                # equal within a tolerance (by default a relative 1e-5): a truth value of its own - it holds for equal values and for some that differ
+                a_, b_ = self._as_arr(args[0]), self._as_arr(args[1])
+                if isinstance(a_, Arr) and isinstance(b_, Arr) and a_.mask is None and b_.mask is None:
+                    try:
+                        d_ = bdims(a_.dims, b_.dims)
+                    except LabelClash:
+                        d_ = None
+                    if d_ is not None:
+                        same_ = alg.eq(a_.poly - b_.poly, 0)
+                        close_ = alg.mk_ind('true', alg.mk_fn('isclose', P(a_.poly), P(b_.poly)))
+                        return Arr(d_, same_ + alg.b_not(same_) * close_)          # certainly where they are equal; where they differ, whatever the tolerance says
+            if last == 'unique' and len(args) == 1 and not (set(kw) - {'return_index'}):
+                # the distinct values in increasing order: an axis of its own (as long as the array only when no value repeats); with return_index also the
+                # position of the first occurrence of each
+                x = self._as_arr(args[0])
+                if isinstance(x, Arr) and x.ndim == 1 and x.dims[0] is not None and x.mask is None:
+                    lab_ = 'uniq:' + str(x.dims[0])
+                    vals_ = Arr((lab_,), alg.mk_fn('unique', L(lab_), B(x.dims[0], x.poly)), unit=x.unit, dt=x.dt)
+                    if kw.get('return_index') is True:
+                        return (vals_, Arr((lab_,), alg.mk_fn('unique_index', L(lab_), B(x.dims[0], x.poly)), unit=num(1), dt='i'))
+                    if not kw.get('return_index'):
+                        return vals_
+            if last == 'nan_to_num' and len(args) == 1 and not (set(kw) - {'copy'}):
+                # NaN becomes 0; every other value stays (an infinity becomes the largest finite number: still not 0, and still infinite for what the analysis asks)
+                x = self._as_arr(args[0])
+                if isinstance(x, Arr) and x.mask is None:
+                    return x.with_(poly=x.poly * alg.b_not(alg.mk_ind('isnan', x.poly)))
             if last == 'nansum':
                 # the sum of the terms that are not NaN: sum(x * [not isnan(x)])
                 x = self._as_arr(args[0])
@@ -3434,6 +3490,9 @@ class Interp:
                     return Arr((), alg.count(x.label), unit=num(1))
                 return Unk('len(%r)' % (x,), e)
             if last == 'range':
+                if any(isinstance(a_, float) for a_ in args):
+                    # range() takes whole numbers only: a float - even a whole one, 2.0 - is a TypeError
+                    raise PyRaise('TypeError', "'float' object cannot be interpreted as an integer (%s)" % up(e)[:60])
                 if len(args) == 1:
                     n = args[0]
                     if isinstance(n, int):
